@@ -347,7 +347,14 @@ var $select = comms => {
 
     var entries = [];
     var thisGoroutine = $curGoroutine;
-    var f = { $blk() { return this.selection; } };
+    var f = {
+        $blk() {
+            if (this.closedDuringSend) {
+                $throwRuntimeError("send on closed channel");
+            }
+            return this.selection;
+        }
+    };
     var removeFromQueues = () => {
         for (var i = 0; i < entries.length; i++) {
             var entry = entries[i];
@@ -372,11 +379,11 @@ var $select = comms => {
                     comm[0].$recvQueue.push(queueEntry);
                     break;
                 case 2: /* send */
-                    var queueEntry = () => {
-                        if (comm[0].$closed) {
-                            $throwRuntimeError("send on closed channel");
-                        }
+                    var queueEntry = closed => {
+                        /* Like $send: when the channel is closed by another goroutine the
+                           blocked select panics once it is resumed, not the closer. */
                         f.selection = [i];
+                        f.closedDuringSend = closed;
                         removeFromQueues();
                         $schedule(thisGoroutine);
                         return comm[1];
